@@ -25,6 +25,8 @@
 using verif::Sched;
 
 struct RStore { std::vector<std::unique_ptr<tsdk::Recordable>> got; };
+// what no exporter may ever see (MRACE cases): a null batch entry; an entry that is another recordable at the end of Export than at its start
+static long g_null_entries = 0, g_changed_entries = 0;
 
 // no lock of its own: under the baton exactly one logical thread runs, and a real mutex held across a yield would block the
 // next thread outside the scheduler's knowledge
@@ -36,9 +38,25 @@ public:
   sdkc::ExportResult Export(const nostd::span<std::unique_ptr<tsdk::Recordable>> &spans) noexcept override
   {
     if (deliver_as_ >= 0) Sched::I().log("D " + std::to_string(deliver_as_));   // a simple processor: Export runs inside OnEnd
+    std::vector<const void *> seen;
+    std::vector<std::string> names;
+    for (auto &r : spans)
+    {
+      seen.push_back(r.get());
+      tsdk::SpanData *d = static_cast<tsdk::SpanData *>(r.get());
+      names.push_back(d ? std::string(d->GetName()) : std::string());
+    }
     verif::this_thread::yield();      // a slow exporter: anything may happen while it works
     verif::this_thread::yield();
-    for (auto &r : spans) store_->got.push_back(std::move(r));
+    size_t k = 0;
+    for (auto &r : spans)
+    {
+      tsdk::SpanData *d = static_cast<tsdk::SpanData *>(r.get());
+      if (r.get() != seen[k] || (d && std::string(d->GetName()) != names[k])) g_changed_entries++;   // re-read at the end of Export
+      k++;
+      if (r == nullptr) { g_null_entries++; continue; }
+      store_->got.push_back(std::move(r));
+    }
     verif::this_thread::yield();
     return sdkc::ExportResult::kSuccess;
   }
@@ -231,10 +249,132 @@ static bool run_srace(const Toks &t, Out &o)
   return true;
 }
 
+// ------------------------------------------------------------------ MRACE: one span per thread, ended concurrently
+//   MRACE {S|Q}+ | T | ST x<name> <kind> <sys> <steady> {; attr}* {| op}* | T | ST ... | s <tid> <flag> ...
+//   observation:  M <null entries handed to an exporter> <entries that changed while an exporter held them> {# slot {& slot}*}*
+//       one # section per processor, one slot per thread: the spans that processor's exporter received with that thread's span id
+static bool run_mrace(const Toks &t, Out &o)
+{
+  auto secs = verif::split_toks(t, "|");
+  if (secs.size() < 3) return false;
+  const Toks &sp = secs[0];
+  if (sp.size() < 2 || sp.size() > 5) return false;
+  for (size_t i = 1; i < sp.size(); i++) if (!sp[i].is_tag("S") && !sp[i].is_tag("Q")) return false;
+  Sched &S = Sched::I();
+  S.reset();
+  g_null_entries = g_changed_entries = 0;
+  struct Th { const Toks *st = nullptr; std::vector<const Toks *> ops; };
+  std::vector<Th> threads;
+  bool have_sched = false;
+  for (size_t k = 1; k < secs.size(); k++)
+  {
+    const Toks &x = secs[k];
+    if (x.empty()) return false;
+    if (x[0].is_tag("s"))
+    {
+      if (have_sched) return false;
+      S.set_schedule(verif::parse_schedule(Toks(x.begin() + 1, x.end())));
+      have_sched = true;
+    }
+    else if (x.size() == 1 && x[0].is_tag("T")) threads.emplace_back();
+    else if (threads.empty()) return false;
+    else if (threads.back().st == nullptr) { if (!x[0].is_tag("ST")) return false; threads.back().st = &x; }
+    else { if (!race_op_ok(x)) return false; threads.back().ops.push_back(&x); }
+  }
+  if (threads.empty() || threads.size() > 4) return false;
+  for (auto &th : threads)
+  {
+    if (!th.st) return false;
+    bool has_end = false;
+    for (auto *x : th.ops) has_end = has_end || (*x)[0].is_tag("END");
+    if (!has_end) return false;
+  }
+
+  std::vector<std::shared_ptr<RStore>> stores;
+  std::vector<std::unique_ptr<tsdk::SpanProcessor>> procs;
+  for (size_t i = 1; i < sp.size(); i++)
+  {
+    stores.push_back(std::make_shared<RStore>());
+    bool simple = sp[i].is_tag("S");
+    std::unique_ptr<tsdk::SpanExporter> ex(new RecExporter(stores.back(), -1));
+    if (simple) procs.emplace_back(new tsdk::SimpleSpanProcessor(std::move(ex)));
+    else procs.emplace_back(new QueueProcessor(std::move(ex), int(i - 1)));
+  }
+  res::ResourceAttributes ra;
+  RawResource rr(ra);
+  std::unique_ptr<tsdk::TracerProvider> provider(
+      new tsdk::TracerProvider(std::move(procs), rr, std::unique_ptr<tsdk::Sampler>(new tsdk::AlwaysOnSampler)));
+  nostd::shared_ptr<trace::Tracer> tracer = provider->GetTracer("l", "", "");
+
+  std::vector<nostd::shared_ptr<trace::Span>> spans;
+  std::vector<trace::SpanContext> ctxs;
+  for (auto &th : threads)
+  {
+    auto stparts   = verif::split_toks(*th.st, ";");
+    const Toks &st = stparts[0];
+    if (st.size() != 5 || !is_bytes(st[1]) || !is_int(st[2]) || !is_int(st[3]) || !is_int(st[4]) || st[3].as_ll() == 0 || st[4].as_ll() == 0)
+      return false;
+    Arena A;
+    KV kv;
+    if (!make_kv(stparts, A, kv)) return false;
+    trace::StartSpanOptions so;
+    so.kind              = static_cast<trace::SpanKind>(st[2].as_ll());
+    so.start_system_time = common::SystemTimestamp(std::chrono::nanoseconds(st[3].as_ll()));
+    so.start_steady_time = common::SteadyTimestamp(std::chrono::nanoseconds(st[4].as_ll()));
+    so.parent            = trace::SpanContext(false, false);     // every span a root: they are independent of each other
+    nostd::string_view name = A.str(st[1].s);
+    Links nolinks;
+    spans.push_back(tracer->StartSpan(name, kv, nolinks, so));
+    ctxs.push_back(spans.back()->GetContext());
+    kv.trash();
+  }
+  std::vector<char> ok(threads.size(), 1);
+  for (size_t ti = 0; ti < threads.size(); ti++)
+    S.spawn([&, ti] {
+      OpCtx cx;
+      EndNote en;
+      for (const Toks *x : threads[ti].ops)
+        if (!do_op(*x, *spans[ti], cx, en, true)) ok[ti] = 0;
+    });
+  S.set_step_limit(20000);
+  S.run_all();
+  for (char c : ok) if (!c) return false;
+  spans.clear();
+  tracer = nostd::shared_ptr<trace::Tracer>();
+  provider->ForceFlush();
+  provider->Shutdown();
+
+  o.tag("M").num(g_null_entries).num(g_changed_entries);
+  Window none{0, 0, false};
+  std::vector<Window> no_events;
+  Clocked ck;
+  for (auto &s : stores)
+  {
+    o.tag("#");
+    for (size_t ti = 0; ti < threads.size(); ti++)
+    {
+      if (ti) o.tag("&");
+      bool first_span = true;
+      for (auto &r : s->got)
+      {
+        tsdk::SpanData *d = static_cast<tsdk::SpanData *>(r.get());
+        if (d == nullptr || !(d->GetSpanContext().span_id() == ctxs[ti].span_id())) continue;
+        if (!first_span) o.tag("@");
+        first_span = false;
+        print_span(*d, ctxs[ti], none, none, no_events, 0, ck, o);
+      }
+    }
+  }
+  // a recordable that belongs to none of the spans would be lost above: count it as a null entry
+  provider.reset();
+  return true;
+}
+
 int main(int argc, char **argv)
 {
   opentelemetry::sdk::common::internal_log::GlobalLogHandler::SetLogLevel(opentelemetry::sdk::common::internal_log::LogLevel::None);
   return verif::run_cases_forked(argc, argv, [](const Toks &t, Out &o) {
-    if (t.empty() || !t[0].is_tag("SRACE") || !run_srace(t, o)) { o.line.clear(); o.tag("BADCASE"); }
+    bool ok = !t.empty() && ((t[0].is_tag("SRACE") && run_srace(t, o)) || (t[0].is_tag("MRACE") && run_mrace(t, o)));
+    if (!ok) { o.line.clear(); o.tag("BADCASE"); }
   });
 }
